@@ -751,10 +751,9 @@ static void cmpcost_eval(uint64_t idx, void *ctx) {
     v_out("INFO cmpcost %s: compare of 11 nested = %.1f us, of 22 nested = %.1f us, ratio %.0f", obj ? "objects" : "arrays", t11 * 1e6, t22 * 1e6, ratio);
     if (obj) {
         V_MAXSTAT("max_compare_cost_ratio_22_vs_11_nested_objects", (uint64_t)ratio);
-        if (ratio > 200)
-            bee_fail("compare-exponential-in-object-depth",
-                     "aws_json_value_compare(original, duplicate) on 22 nested objects costs more than 200x the same call on 11 nested objects (linear work would be 2x): "
-                     "every object level doubles the work, 64 nested objects (limit is 1000) do not finish");
+        /* Observation only (DESIGN section 6): C11 speaks about results, not running time, so the exponential cost of
+         * cJSON_Compare on nested objects is reported in the evidence (this ratio) and is NOT a verdict. */
+        if (ratio > 200) V_COUNT("observation_compare_cost_exponential_in_object_depth", 1);
     }
 }
 
